@@ -1,0 +1,67 @@
+//go:build verif
+
+package routing
+
+// Contracts for govc (see /verif/DESIGN.md). Comment-only file: contributes no code.
+
+// ---- C09: a model is sent only to healthy endpoints whose listing contains it
+
+//@ func (s *StrictStrategy) Name
+//@   property C09
+//@   ensures res == "strict"
+
+//@ func (s *StrictStrategy) GetRoutableEndpoints
+//@   property C09
+//@   requires allNonNil(healthyEndpoints)
+//@   loop 1 invariant modelEndpointMap != nil && fresh(modelEndpointMap)
+//@   loop 1 invariant forall k string :: modelEndpointMap[k] == (exists j int :: 0 <= j && j < i$1 && modelEndpoints[j] == k)
+//@   loop 2 invariant forall k int :: 0 <= k && k < len(routable) ==> member(routable[k], healthyEndpoints) && listedURL(routable[k].URLString, modelEndpoints)
+//@   loop 2 invariant forall j int :: 0 <= j && j < i$2 && listedURL(healthyEndpoints[j].URLString, modelEndpoints) ==> member(healthyEndpoints[j], routable)
+//@   ensures res1 != nil
+//@   ensures res2 == nil ==> len(res0) > 0 && res1.Action == "routed" && res1.StatusCode == 200 && res1.Strategy == "strict"
+//@   ensures res2 == nil ==> forall k int :: 0 <= k && k < len(res0) ==> member(res0[k], healthyEndpoints) && listedURL(res0[k].URLString, modelEndpoints)
+//@   ensures res2 == nil ==> forall j int :: 0 <= j && j < len(healthyEndpoints) && listedURL(healthyEndpoints[j].URLString, modelEndpoints) ==> member(healthyEndpoints[j], res0)
+//@   ensures res2 != nil ==> len(res0) == 0 && res1.Action == "rejected"
+//@   ensures len(modelEndpoints) == 0 ==> res2 != nil && res1.StatusCode == 404
+//@   ensures len(modelEndpoints) > 0 && noneListed(healthyEndpoints, modelEndpoints) ==> res2 != nil && res1.StatusCode == 503
+//@   ensures len(modelEndpoints) > 0 && !noneListed(healthyEndpoints, modelEndpoints) ==> res2 == nil
+
+//@ func (s *OptimisticStrategy) Name
+//@   property C09
+//@   ensures res == "optimistic"
+
+//@ func (s *OptimisticStrategy) GetRoutableEndpoints
+//@   property C09
+//@   requires allNonNil(healthyEndpoints)
+//@   loop 1 invariant modelEndpointMap != nil && fresh(modelEndpointMap)
+//@   loop 1 invariant forall k string :: modelEndpointMap[k] == (exists j int :: 0 <= j && j < i$1 && modelEndpoints[j] == k)
+//@   loop 2 invariant forall k int :: 0 <= k && k < len(routable) ==> member(routable[k], healthyEndpoints) && listedURL(routable[k].URLString, modelEndpoints)
+//@   loop 2 invariant forall j int :: 0 <= j && j < i$2 && listedURL(healthyEndpoints[j].URLString, modelEndpoints) ==> member(healthyEndpoints[j], routable)
+//@   ensures res1 != nil && res2 == nil
+//@   ensures res1.Action == "routed" ==> len(res0) > 0 && res1.StatusCode == 200 && (forall k int :: 0 <= k && k < len(res0) ==> member(res0[k], healthyEndpoints) && listedURL(res0[k].URLString, modelEndpoints))
+//@   ensures res1.Action == "routed" ==> forall j int :: 0 <= j && j < len(healthyEndpoints) && listedURL(healthyEndpoints[j].URLString, modelEndpoints) ==> member(healthyEndpoints[j], res0)
+//@   ensures res1.Action == "routed" || res1.Action == "rejected" || res1.Action == "fallback"
+//@   ensures res1.Action == "rejected" ==> len(res0) == 0 && (len(modelEndpoints) == 0 ==> res1.StatusCode == 404) && (len(modelEndpoints) > 0 ==> res1.StatusCode == 503)
+//@   ensures res1.Action == "fallback" ==> sameSlice(res0, healthyEndpoints) && s.fallbackBehavior != "none" && s.fallbackBehavior != "compatible_only"
+//@   ensures (s.fallbackBehavior == "none" || s.fallbackBehavior == "compatible_only") && (len(modelEndpoints) == 0 || noneListed(healthyEndpoints, modelEndpoints)) ==> res1.Action == "rejected"
+//@   ensures len(modelEndpoints) > 0 && !noneListed(healthyEndpoints, modelEndpoints) ==> res1.Action == "routed"
+
+//@ func (s *DiscoveryStrategy) Name
+//@   property C09
+//@   ensures res == "discovery"
+
+//@ func (s *DiscoveryStrategy) GetRoutableEndpoints
+//@   property C09
+//@   replay routing_discovery_fallback : s.options.FallbackBehavior
+//@   requires s != nil && allNonNil(healthyEndpoints)
+//@   modifies domain.Endpoint.Status, domain.Endpoint.Name, domain.Endpoint.URLString, domain.Endpoint.Priority, domain.Endpoint.Type, domain.Endpoint.NextCheckTime, domain.Endpoint.LastChecked, domain.Endpoint.ConsecutiveFailures, domain.Endpoint.BackoffMultiplier, domain.Endpoint.LastLatency
+//@   loop 1 invariant modelEndpointMap != nil && fresh(modelEndpointMap)
+//@   loop 1 invariant forall k string :: modelEndpointMap[k] == (exists j int :: 0 <= j && j < i$1 && modelEndpoints[j] == k)
+//@   loop 2 invariant forall k int :: 0 <= k && k < len(currentlyRoutable) ==> member(currentlyRoutable[k], healthyEndpoints) && listedURL(currentlyRoutable[k].URLString, modelEndpoints)
+//@   loop 2 invariant forall j int :: 0 <= j && j < i$2 && listedURL(healthyEndpoints[j].URLString, modelEndpoints) ==> member(healthyEndpoints[j], currentlyRoutable)
+//@   ensures res1 != nil
+//@   ensures res1.Action == "routed" || res1.Action == "rejected" || res1.Action == "fallback"
+//@   ensures res1.Action == "routed" ==> res2 == nil && len(res0) > 0 && res1.StatusCode == 200 && (forall k int :: 0 <= k && k < len(res0) ==> member(res0[k], healthyEndpoints) && old(listedURL(res0[k].URLString, modelEndpoints)))
+//@   ensures res1.Action == "rejected" ==> res2 != nil && len(res0) == 0 && res1.StatusCode == 503
+//@   ensures old(!noneListed(healthyEndpoints, modelEndpoints)) ==> res1.Action == "routed"
+//@   ensures old(s.options.FallbackBehavior == "none" || s.options.FallbackBehavior == "compatible_only") ==> res1.Action != "fallback"
